@@ -249,6 +249,15 @@ var loopSpecs = []loopSpec{
 		skips: []skipCond{{"bytes.HasSuffix", false, "", "index key of another denom/delegator"}, {"binop", true, "builtin.len(", "key shorter than the suffix"},
 			{"binop", true, "#1 != $denom&&types.ParseUnbondingIndexKeyForValidatorAndDenom", "index key of another denom (parsed)"}, {"binop", false, "#1 == $denom&&types.ParseUnbondingIndexKeyForValidatorAndDenom", "index key of another denom (parsed)"}}, props: []string{"C20"}},
 	{fn: "keeper.Keeper.InitGenesis", what: "entries of an imported unbonding bucket", anchor: []string{"keeper.Keeper.setUnbondingIndexByVal"}, props: []string{"C18"}},
+	// every list of the genesis state is imported element by element, nothing is filtered (round 6, C18f: matured-looking redelegations dropped on import)
+	{fn: "keeper.Keeper.InitGenesis", what: "imported assets", anchor: []string{"keeper.Keeper.SetAsset"}, props: []string{"C18"}},
+	{fn: "keeper.Keeper.InitGenesis", what: "imported validator infos", anchor: []string{"keeper.Keeper.SetValidatorInfo"}, props: []string{"C18"}},
+	{fn: "keeper.Keeper.InitGenesis", what: "imported delegations", anchor: []string{"keeper.Keeper.SetDelegation"}, props: []string{"C18"}},
+	{fn: "keeper.Keeper.InitGenesis", what: "imported redelegations (record and by-source index)", anchor: []string{"keeper.Keeper.addRedelegation"}, props: []string{"C18", "C15"}},
+	{fn: "keeper.Keeper.InitGenesis", what: "imported redelegations (maturity queue)", anchor: []string{"keeper.Keeper.queueRedelegation"}, props: []string{"C18", "C15"}},
+	{fn: "keeper.Keeper.InitGenesis", what: "imported unbonding buckets", anchor: []string{"keeper.Keeper.setQueuedUndelegations"},
+		skips: []skipCond{{"binop", true, ".Entries) == 0", "bucket without entries"}, {"binop", false, ".Entries) != 0", "bucket without entries"}}, props: []string{"C18", "C02"}},
+	{fn: "keeper.Keeper.InitGenesis", what: "imported reward weight snapshots", anchor: []string{"keeper.Keeper.setRewardWeightChangeSnapshot"}, props: []string{"C18"}},
 	// the shared store iterators hand EVERY record to the callback (their users - reset, rebalance, snapshots, export - rely on it)
 	{fn: "keeper.Keeper.IterateAllianceValidatorInfo", what: "validator records handed to the callback", anchor: []string{"dyn"},
 		stopOnAnchor: true, props: []string{"C03", "C10", "C14", "C18"}},
@@ -494,11 +503,7 @@ func init() {
 				r.OK(k, "no zero-counter idiom", "the clock branch is not selected by a counter (C09.clock covers the exits)")
 				return
 			}
-			for _, ed := range counter.Edges {
-				b, ok := ed.(*ssa.BinOp)
-				if !ok || !fa.Term(b.X).Eq(fa.Term(counter)) {
-					continue
-				}
+			for _, b := range counterIncrements(fa, fa.Term(counter)) {
 				sts := StoresToField(fn, "types.AllianceAsset", "TotalTokens")
 				a := ""
 				if len(sts) == 1 {
